@@ -1,7 +1,7 @@
 (* C03 -- the rainflow result depends only on the reversal sequence; symmetries.
    Model: PL.Rainflow.Model (tied to the code by correspondence).  Only statements, `exact`, Print Assumptions. *)
 From Coq Require Import ZArith List Bool.
-From PL Require Import Rainflow.Model Rainflow.Eqb Rainflow.Spec Rainflow.SpecThm Rainflow.Symm Rainflow.Symm2 Rainflow.Bounded3 Rainflow.NaN.
+From PL Require Import Rainflow.Model Rainflow.Eqb Rainflow.Spec Rainflow.SpecThm Rainflow.Symm Rainflow.Symm2 Rainflow.Bounded3 Rainflow.NaN Rainflow.Symm3.
 Import ListNotations.
 Open Scope Z_scope.
 
@@ -17,6 +17,18 @@ Theorem affine_4pt a b s : 0 < a -> s <> [] ->
   let '(c, r, ri, k) := run4 [s] in
   run4 [map g s] = (map (fun q => (g (fst (fst (fst q))), g (snd (fst (fst q))), snd (fst q), snd q)) c, map g r, ri, k).
 Proof. intros Ha. exact (Symm.run4_map (vm_affine a b Ha) s). Qed.
+
+(* three-point detector (its kernel compares array positions; invariants: positions in range,
+   turns[lowest front] <= turns[highest front]): same two statements, unbounded *)
+Theorem negate_3pt s : s <> [] ->
+  let '(c, r, ri, k) := run3 [s] in
+  run3 [map Z.opp s] = (map (fun q => (- fst (fst (fst q)), - snd (fst (fst q)), snd (fst q), snd q)) c, map Z.opp r, ri, k).
+Proof. exact (Symm3.run3_map vm_neg s). Qed.
+Theorem affine_3pt a b s : 0 < a -> s <> [] ->
+  let g := fun x => a * x + b in
+  let '(c, r, ri, k) := run3 [s] in
+  run3 [map g s] = (map (fun q => (g (fst (fst (fst q))), g (snd (fst (fst q))), snd (fst q), snd q)) c, map g r, ri, k).
+Proof. intros Ha. exact (Symm3.run3_map (vm_affine a b Ha) s). Qed.
 
 (* turning-point extraction is equivariant: same indices, mapped values (unbounded; used by all detectors) *)
 Theorem find_turns_negate s : find_turns (map Z.opp s) = map (fun iv => (fst iv, - snd iv)) (find_turns s).
@@ -59,7 +71,8 @@ Theorem nan_drop_index s :
   Forall (fun iv => nth_error s (fst iv) = Some (Some (snd iv))) (find_turns_nan s).
 Proof. exact (NaN.nan_drop_index s). Qed.
 
-(* three-point detector (position-comparing kernel): bounded instances, the bound is in the statement *)
+(* three-point detector: bounded instances kept (symmetries are now also proved unbounded above; the
+   refinement statement for the three-point detector is proved bounded only) *)
 Theorem threepoint_symmetries_bounded s :
   (1 <= length s <= 7)%nat -> Forall (fun x => 0 <= x <= 3) s ->
   eqobs (run3 [map Z.opp s]) (map_obs Z.opp (run3 [s])) = true /\
@@ -77,6 +90,8 @@ Proof. vm_compute. reflexivity. Qed.
 
 Print Assumptions negate_4pt.
 Print Assumptions affine_4pt.
+Print Assumptions negate_3pt.
+Print Assumptions affine_3pt.
 Print Assumptions find_turns_negate.
 Print Assumptions find_turns_affine.
 Print Assumptions negate_fkm.
